@@ -11,7 +11,15 @@
 #include "half.hpp"
 
 #include <cmath>
+#include <map>
 #include <sstream>
+
+#if defined(__has_feature)
+#if __has_feature(address_sanitizer)
+#include <sanitizer/asan_interface.h>
+#define VF_HAVE_ASAN_LOCATE 1
+#endif
+#endif
 
 namespace vf {
 
@@ -22,6 +30,10 @@ struct SynthAbort {
 struct TraceEntry {
 	uint8_t hint;
 	uint32_t size;
+	// Field identity: which heap allocation (numbered in order of first use) and which offset
+	// inside it the value was read into; -1 for stack temporaries / unknown.
+	int32_t alloc = -1;
+	uint32_t offset = 0;
 	bool operator==(const TraceEntry& o) const { return hint == o.hint && size == o.size; }
 };
 
@@ -62,6 +74,7 @@ public:
 	std::string rec;
 	size_t reads = 0, refsRead = 0, refsSet = 0, strRead = 0, strSet = 0, preconds = 0;
 	std::vector<TraceEntry> trace;
+	std::map<void*, int32_t> allocOrd;
 	bool bsGeomZeroSeen = false;
 
 	void emit(char* dst, const void* src, size_t n) {
@@ -101,8 +114,23 @@ public:
 	void doRead(char* dst, std::streamsize count, nifly::verif::Hint hint, size_t es) {
 		using nifly::verif::Hint;
 		reads++;
-		if (plan.wantTrace)
-			trace.push_back({static_cast<uint8_t>(hint), static_cast<uint32_t>(count)});
+		if (plan.wantTrace) {
+			TraceEntry te{static_cast<uint8_t>(hint), static_cast<uint32_t>(count)};
+#ifdef VF_HAVE_ASAN_LOCATE
+			char nm[8];
+			void* region = nullptr;
+			size_t rsize = 0;
+			const char* kind = __asan_locate_address(dst, nm, sizeof nm, &region, &rsize);
+			if (kind && kind[0] == 'h' && region) { // "heap"
+				auto it = allocOrd.find(region);
+				if (it == allocOrd.end())
+					it = allocOrd.emplace(region, static_cast<int32_t>(allocOrd.size())).first;
+				te.alloc = it->second;
+				te.offset = static_cast<uint32_t>(dst - static_cast<char*>(region));
+			}
+#endif
+			trace.push_back(te);
+		}
 		size_t n = static_cast<size_t>(count);
 		if (n == 0)
 			return;
